@@ -12,11 +12,11 @@ RULE = ("histories (3..15 ops) of add/update/delete/lookup over Secrets (each ob
         "(names, modes, which secret version each file's content is) and the lookup result are compared with the model and with the Spec "
         "evaluated from the history. Non-trivial: at least one lookup materialised a file and a later op changed or removed that secret.")
 TRUSTED = ["ValidateSecret's verdict is an input of the model (the harness prints the real verdict, the correspondence compares it with the generator's expectation)",
-           "atomicity of rename(2); Kubernetes keeps a Secret's type immutable"]
-ASSUMPTIONS = ["secret type is immutable for the life of an object"]
+           "atomicity of rename(2)"]
+ASSUMPTIONS = ["secret type is immutable for the life of an object (another type under the same key is a re-created object; generated as such)"]
 LEVEL_TEXT = ("Lean 4 theorems over the store+directory model for all add/update/delete/lookup histories: a derived file is written only by a "
               "lookup of a valid secret or an update of an already materialised valid one, always from the current version (file_current); an "
-              "update that makes a materialised TLS/JWK/htpasswd secret invalid, or its deletion, removes its file; a lookup of a missing or "
+              "update that makes a materialised TLS/JWK/htpasswd secret invalid, its deletion, or its replacement by an object of another type (retype_removes), removes its file; a lookup of a missing or "
               "invalid secret reports an error and writes nothing (lookup_reports_error); secrets without file representation never create one. "
               "Negative results proved with witnesses: CA files survive deletion (S-C11-a) and file names collide (S-C11-b).")
 LEVEL_NOTE = "Assurance = weaker of (theorems about the model, correspondence with the real store/configurator/manager on a real directory)."
@@ -154,11 +154,31 @@ def gen_revert_case(rng):
     return "sec ops=%s" % ";".join(ops)
 
 
+def gen_retyped_case(rng):
+    """A materialised secret is deleted and re-created under the same name WITH ANOTHER TYPE and the store sees one update (the type
+    of an object is immutable, so only a re-created object can arrive like this): the files of the old type must go (S-C11-c)."""
+    k = rng.choice(KEYS)
+    t1, t2 = rng.shuffle(["tls", "jwk", "htp", "oidc", "api", "ca"])[:2]
+    if t1 == "ca":
+        t1, t2 = t2, t1     # away from CA is the recorded finding S-C11-a (its files survive every removal)
+    ops = ["a|%s|%s|%s|ok|0|u1" % (k[0], k[1], t1), "g|%s/%s" % k]
+    pl = "ok" if rng.chance(3, 4) else rng.choice(PAYLOADS[t2])
+    ops.append("a|%s|%s|%s|%s|1|u2" % (k[0], k[1], t2, pl))
+    if rng.chance(2, 3):
+        ops.append("g|%s/%s" % k)
+    if rng.chance(1, 2):
+        ops.append("a|%s|%s|%s|ok|2|u2" % (k[0], k[1], t2))
+    if rng.chance(2, 3):
+        ops.append("d|%s/%s" % k)
+    return "sec ops=%s" % ";".join(ops)
+
+
 def gen(rng, tier):
     n = 300 if tier == "quick" else 3000
     cases = [dict(line=gen_case(rng, 15 if tier == "quick" else 25), tags=["history"]) for _ in range(n)]
     cases += [dict(line=gen_revert_case(rng), tags=["revert"]) for _ in range(n // 4)]
     cases += [dict(line=gen_replaced_case(rng), tags=["replaced-object"]) for _ in range(n // 6)]
+    cases += [dict(line=gen_retyped_case(rng), tags=["retyped-object"]) for _ in range(n // 6)]
     cases += [dict(line=gen_prefix_case(rng), tags=["prefix-names"]) for _ in range(n // 3)]
     return cases
 
@@ -208,6 +228,11 @@ def spec_check(line, impl, r):
                 asked.discard(key)
                 if key in cur:
                     r["nontrivial"] = True
+            if key in cur and cur[key][0] != f[3]:
+                # another type under the same key: a re-created object (the type is immutable) — nobody has asked for THIS secret yet
+                if key in asked:
+                    r["nontrivial"] = True
+                asked.discard(key)
             cur[key] = (f[3], int(f[5]), v)
         elif f[0] == "d":
             if f[1] in asked:
